@@ -39,6 +39,7 @@ From V Require Import Proto.AsyncStackDefs.
 From V Require Import Proto.TakeUntilDefs.
 From V Require Import Proto.StopImmediatelyDefs.
 From V Require Import Proto.IoCancelDefs.
+From V Require Import Calc.Calc2Defs.
 Extraction Blacklist List String Int.
 Cd "../ocaml".
 Extraction "model.ml"
@@ -235,5 +236,16 @@ Extraction "model.ml"
   IoCancel.init
   IoCancel.crashed
   IoCancel.parked_ok
+  Calc2.exec
+  Calc2.run_start
+  Calc2.run_ev
+  Calc2.run_end
+  Calc2.r_tr
+  Calc2.r_roots
+  Calc2.via
+  Calc2.on
+  Calc2.wsa_via
+  Calc2.just_from
+  Calc2.defer
   (*END*).
 Cd "../coq".
